@@ -26,6 +26,7 @@ class ObjRunner:
         self.depth = 0
         self.depth_limit = depth_limit
         self.calls = []  # (class, method) executed, for the evidence
+        self.module_state = {}
 
     # ------------------------------------------------------------------ classes
     def cinfo(self, name):
@@ -60,7 +61,10 @@ class ObjRunner:
             raise AnalysisError(f"object model: {clsname}.{meth} not found")
         return self.run_function(f, obj, args, kw)
 
-    def run_function(self, f, selfobj, args, kw):
+    def call_function(self, rel, name, *args, **kw):
+        return self.run_function(self.prog.func(rel, name), None, args, kw, plain=True)
+
+    def run_function(self, f, selfobj, args, kw, plain=False):
         self.depth += 1
         if self.depth > self.depth_limit:
             raise AnalysisError(f"object model: call depth exceeded in {f.key}")
@@ -69,10 +73,12 @@ class ObjRunner:
             params = [a.arg for a in node.args.args]
             decos = {U(d) for d in node.decorator_list}
             env = {}
-            if "staticmethod" in decos:
+            if "staticmethod" in decos or plain:
                 names = params
             else:
                 env[params[0]] = selfobj if "classmethod" not in decos else {"__class__": selfobj["__class__"], "__is_class__": True}
+                if "classmethod" not in decos and selfobj.get("__is_class__"):
+                    raise AnalysisError(f"object model: instance method {f.key} called on the class")
                 names = params[1:]
             defaults = node.args.defaults
             for i, p in enumerate(names):
@@ -86,6 +92,13 @@ class ObjRunner:
                         raise AnalysisError(f"object model: missing argument {p!r} for {f.key}")
                     env[p] = Interp({}).ev(defaults[j])
             self.calls.append(f.key)
+            # module-level constants of the callee's module: one object per runner, so state kept in them is shared between calls
+            rel = f.module.rel
+            if rel not in self.module_state:
+                import copy
+                self.module_state[rel] = copy.deepcopy(self.prog.module_constants(rel))
+            for k, v in self.module_state[rel].items():
+                env.setdefault(k, v)
             it = Interp(env, call_hook=self.hook, loop_hook=self.loop)
             try:
                 it.run(node.body)
@@ -146,6 +159,10 @@ class ObjRunner:
             return {"__class__": "re.Pattern", "pattern": args[0], "flags": args[1] if len(args) > 1 else 0}
         if name in ("re.match", "re.fullmatch", "re.search") and len(args) >= 2 and all(isinstance(a, str) for a in args[:2]):
             return self._match(name.split(".")[1], args[0], args[1])
+        if isinstance(call.func, ast.Attribute) and isinstance(call.func.value, ast.Name) and call.func.value.id not in interp.env \
+                and self.cinfo(call.func.value.id) is not None and self.find(call.func.value.id, call.func.attr) is not None:
+            clsobj = {"__class__": call.func.value.id, "__is_class__": True}
+            return self.run_function(self.find(call.func.value.id, call.func.attr), clsobj, args, kw)
         if isinstance(call.func, ast.Attribute):
             recv = interp.ev(call.func.value)
             attr = call.func.attr
@@ -173,6 +190,12 @@ class ObjRunner:
                 return None
         if isinstance(call.func, ast.Name) and self.cinfo(name) is not None:
             return self.new(name, *args, **kw)
+        if isinstance(call.func, ast.Name) and isinstance(interp.env.get(name), dict) and interp.env[name].get("__is_class__"):
+            return self.new(interp.env[name]["__class__"], *args, **kw)  # cls(...) inside a classmethod
+        if isinstance(call.func, ast.Name):
+            key = f"{self.rel}::{name}"
+            if key in self.prog.funcs:
+                return self.run_function(self.prog.funcs[key], None, args, kw, plain=True)
         raise AnalysisError(f"object model: unsupported call {U(call)[:80]!r}")
 
     @staticmethod
